@@ -86,6 +86,8 @@ def plan(seed, subbatch):
             hexcfg["timeframe_fill"] = True
     elif fx.random() < 0.15:
         members[0]["common"]["candlestick_type"] = "HA"
+    if kind == "hexital" and sub_rng(seed, "add-later").random() < 0.15:
+        hexcfg["add_later"] = True     # the Hexital is built empty, members arrive through add_indicator
     n = planlib.pick_n(cfg, (2, 12), (8, 50), (30, 120))
     lifespan = None
     if cfg.random() < 0.2:
@@ -122,6 +124,9 @@ def plan(seed, subbatch):
         late["common"]["timeframe"] = late_tf
         if member_name(late) not in {member_name(m) for m in members}:
             extras.append((0.3 + 0.6 * op_rng.random(), {"op": "add", "spec": late}))
+    if kind == "hexital" and len(members) > 1 and sub_rng(seed, "remove").random() < 0.25:
+        # one member leaves mid-stream: every way of asking about the others still agrees
+        extras.append((0.2 + 0.6 * sub_rng(seed, "remove-at").random(), {"op": "remove", "target": sub_rng(seed, "remove-k").randint(0, 3)}))
     start = world.pick_start(cfg, base_s, tf_s)
     pre, ops, fired, rows = planlib.stream_and_schedule(seed, subbatch, n, base_s, start, faults, burst, 0.0, extras,
                                                         regimes=regimes)
@@ -325,6 +330,12 @@ def execute(trace, ctx=None):
                     if i % 2:
                         m.calculate(None)   # otherwise the new member stays uncalculated until the next op
                     run.stats["late_member_on_new_timeframe"] += 1
+                    maint += 1
+                elif kind == "remove":
+                    if m.kind != "hexital" or len(m.live_slots()) < 2:
+                        continue
+                    m.remove(m.slot(op.get("target", 0)))
+                    run.stats["member_removed"] += 1
                     maint += 1
                 elif kind == "calc_index":
                     slot = m.slot(op.get("target"))
